@@ -70,11 +70,13 @@ CHECKS["C02"] = {
     "rule": ("rapid state machine over a real mint on a fresh SQLite directory and the Lightning network model (backend charges the full fee limit): configuration drawn from fee ppk {0,1,100,999,1000,2500}, fee reserve policy {0, ceil 1%, const}, MPP on/off; "
              "operations fund / mint (exact, less, over by 1, duplicate output, unknown keyset, non-key amount) / swap (honest and adversarial: outputs over by 1, overflowing output sum, fee ignored, inflated input amount, inactive/unknown keyset outputs, duplicate and re-signed outputs, duplicate inputs) / melt quote (external sat, external msat precision, internal, MPP) / melt with LN outcome {success, pending, failed, transport error with truth none/inflight/succeeded} / underfunded melt / resolve / polls / checkstate / rotation / restart. "
              "oracle after every step: 1000*(issued - redeemed - locked-by-succeeded-payment) + outflow <= inflow in msat, plus local forms (swap outputs <= inputs - fee, mint outputs <= quote amount, melt inputs >= amount + fee_reserve + fee, fee limit handed to LN <= fee_reserve, msat paid <= 1000*quote amount). "
-             "non-trivial: history with >=1 swap charging a fee > 0, or >=1 settled melt, or >=1 adversarial request that reached validation; distinct = hash of the operation trace."),
+             "non-trivial: history with >=1 swap charging a fee > 0, or >=1 settled melt, or >=1 adversarial request that reached validation; distinct = hash of the operation trace. "
+             "Also: mint / swap requests that meet a storage error at their k-th storage call followed by restore of their outputs and a retry (what restore hands out is booked as issued), restore probes after refused requests, mint requests on internally settled quotes. "
+             "Schedule units (shared race harness): 2..3 concurrent swaps / melts / state checks / quote polls / mint requests sharing inputs or outputs, optionally after a melt left pending, under random (rapid) and enumerated (pre-emption bound 2 quick / 4 thorough) schedules at storage/LN-call granularity; oracle = the same inequality over ground truth once all requests have returned; non-trivial = >=1 context switch inside a request."),
     "level_text": ("Random and adversarial operation histories are executed against the real mint (real SQLite, real signing) and an independent millisatoshi ledger fed only by responses and by the Lightning model's ground truth; the inequality and its four local forms are checked after every step and failures shrink to a minimal history. "
                    "Exploration is the right level for a property over all histories and configurations: it samples thousands of histories per run but cannot exclude a violation confined to a history shape the generator does not produce."),
-    "level_note": "Trusted: the Lightning model (harness/lnmodel) as a faithful rendering of the lightning.Client contract with an adversarial fee policy; the client helper's unblinding; SQLite. Sequential histories only (concurrency is C01/C03).",
-    "assumptions": ["Lightning backend modelled by harness/lnmodel (charges the full fee limit; answers scripted)", "sequential request histories; schedules are covered by C01/C03"],
+    "level_note": "Trusted: the Lightning model (harness/lnmodel) as a faithful rendering of the lightning.Client contract with an adversarial fee policy; the client helper's unblinding; SQLite. Histories are sequential; the schedule units cover 2..3 concurrent requests at storage/LN-call granularity.",
+    "assumptions": ["Lightning backend modelled by harness/lnmodel (charges the full fee limit; answers scripted)", "interleaving granularity of the schedule units = one storage or Lightning call"],
     "units": [
         plain("regress", "^TestRegress"),
         rapid("ledger", "^TestLedger$", 480, 40000, qs=8, ts=16),
@@ -159,10 +161,11 @@ CHECKS["C16"] = {
     "technique": "model-based stateful property testing (rapid) with boundary-value request generation against big-integer limit arithmetic",
     "rule": ("rapid state machine with drawn limits (max balance, mint max, melt max each unset / small / larger) and boundary requests: mint quotes of mintMax, mintMax +- 1, maxBalance - balance +- 1, 2^63-1, 2^63, 2^64-1, 2^64 - balance (+0..2: uint64 wrap), melt quotes of meltMax, meltMax +- 1 sat with and without sub-sat msat; "
              "oracle after every step: IssuedEcash / RedeemedEcash per keyset equal the sums of signatures handed out / proofs consumed (model), TotalBalance = difference >= 0, info.nuts.4.disabled = (maxBalance set and balance >= maxBalance); a mint quote is refused iff amount > mintMax or balance + amount > maxBalance (big-integer arithmetic), a melt quote iff its sat amount > meltMax. "
-             "non-trivial: history containing a request within +-1 of a configured boundary or >= 2^63, or a balance read after >=1 fee-charging swap and >=1 settled melt; distinct = hash of limits and trace."),
+             "non-trivial: history containing a request within +-1 of a configured boundary or >= 2^63, or a balance read after >=1 fee-charging swap and >=1 settled melt; distinct = hash of limits and trace. "
+             "Schedule units (shared race harness): 2..3 concurrent swaps / mint requests / melts sharing inputs or outputs under random and enumerated schedules at storage/LN-call granularity; oracle: reported issued total = signatures really handed out, reported redeemed total = value of the proofs reported SPENT, balance non-negative; non-trivial = >=1 context switch."),
     "level_text": "Generated histories and limits against the real mint and its SQLite balance views; totals are recomputed from responses. Exploration over histories and limit configurations.",
     "level_note": _WORLD_NOTE + "Issued totals stay far below 2^62 (SQLite SUM is int64); amounts >= 2^63 are only requested, where refusal (by limit or by the Lightning backend, which cannot invoice them) is the expected answer.",
-    "assumptions": ["Lightning backend refuses invoices above 2^40 sat like real backends", "totals < 2^62"],
+    "assumptions": ["Lightning backend refuses invoices above 2^40 sat like real backends", "totals < 2^62", "interleaving granularity of the schedule units = one storage or Lightning call"],
     "units": [
         rapid("balances", "^TestBalances$", 400, 40000, qs=8, ts=16),
         rapid("sched", "^TestSchedTotals$", 300, 24000, qs=6, ts=16),
@@ -196,10 +199,11 @@ CHECKS["C06"] = {
              "or semantic (outputs over by one, duplicate output identical / with changed witness / amount, unknown keyset, non-key amount, non-point B_, already signed B_, overflowing amounts, spent input, unknown quote, underfunded melt, duplicate input with changed witness, forged C), sent through the real HTTP handler in-process; "
              "plus the degenerate shapes as Go values on the exported API (nil/empty lists, zero requests, unknown ids). "
              "oracle: (1) no panic (a handler panic is visible because the handler runs in-process); (2) if the answer is not 200, the snapshot read through the inner storage handle (spent and pending rows of all known and referenced Ys, all quote rows, stored signatures of all known and referenced B_, issued/redeemed sums, keysets) is identical before and after, with LN-driven transitions adopted by polling before the first snapshot; (3) the honest request with the same inputs / the same paid quote then succeeds. "
-             "non-trivial: the mutated request referenced >=1 unspent proof or a paid-unissued quote; distinct = (endpoint, mutation class, state size)."),
+             "non-trivial: the mutated request referenced >=1 unspent proof or a paid-unissued quote; distinct = (endpoint, mutation class, state size). "
+             "Schedule units (shared race harness): 2..3 concurrent swaps / melts / mint requests / state checks sharing inputs or outputs under random and enumerated schedules at storage/LN-call granularity; oracle: whatever a swap or melt that was answered with an error brought along is still UNSPENT once all requests have returned, unless an accepted request used it; non-trivial = >=1 refused request and >=1 context switch."),
     "level_text": "Generated malformed and invalid requests at generated states of the real mint; storage is compared row by row around every refused request and the refused resources are immediately reused honestly.",
     "level_note": _WORLD_NOTE + "Storage and Lightning faults are C07/C20's subject; here storage works.",
-    "assumptions": ["snapshot covers the objects known to the model plus those referenced by the probe"],
+    "assumptions": ["snapshot covers the objects known to the model plus those referenced by the probe", "interleaving granularity of the schedule units = one storage or Lightning call"],
     "units": [
         plain("regress", "^TestRegress"),
         rapid("rejected", "^TestRejected$", 240, 40000, qs=8, ts=16),
